@@ -796,6 +796,7 @@ func cmdCheck(prop string, args []string) {
 			addG(spec.DeadlockProperty, p.Violation.Signature, p)
 		} else if st.Class == "driver-lock-deadlock" {
 			otherProps["(lock deadlock in the driver; reported by the C06/C17 checks)"]++
+			os.WriteFile(filepath.Join(verifDir, ".work", "last-stall-"+st.Class+".txt"), []byte(st.Stacks), 0o644)
 		} else if st.Class == "driver-busy-loop" && si < len(stallRuns) && crashProperty[stallRuns[si].scenario] != "" {
 			// a driver goroutine computing or allocating for the whole watchdog period
 			cp := crashProperty[stallRuns[si].scenario]
